@@ -61,8 +61,10 @@ CLAIMED = {
           "every rejection changes nothing and completes the request except for locked files; idempotent; n workers at statement "
           "granularity under every schedule end with one acq/file/copy (Y or M), all requests completed, no exception. Tie: real "
           "update_import/import_file/_import_file on an adversarial tree x request forms x detector behaviours; 2-3 real threads "
-          "preempted at every SQL statement."),
-    note=NOTE_COMMON + " Row uniqueness is the database's unique indexes; file_walk itself is exercised, not modelled.",
+          "preempted at every SQL statement. The recursive scan (file_walk) is modelled too: for trees of any depth it yields exactly the regular "
+          "non-symlink files reached through directories, as many paths as files, all below the walked path; tie: real file_walk on "
+          "random trees of every entry kind vs the Lean fileWalk."),
+    note=NOTE_COMMON + " Row uniqueness is the database's unique indexes; os.scandir/DirEntry semantics (is_dir/is_file follow links) are modelled.",
     technique="Lean 4 proof (finite case analysis + small-step invariant for n workers) + differential correspondence incl. statement-level interleaving",
     ref="DESIGN.md §4 C04"),
  "C17": dict(
